@@ -133,16 +133,25 @@ CHECKS = {
        "range_sound_fragment (every derived range bounds every row on which the predicate is TRUE), window_sound_fragment (the row's key in ANY index lies in the "
        "key window built for it), plan_independent_fragment (range scan = unrestricted scan of the same index, as lists, any LIMIT/OFFSET/direction), "
        "plan_independent_perm_fragment (two indexes return permutations of the rows kept by the predicate), order_by_sorted_fragment, partition_fragment "
-       "(P / NOT P / (P) IS NULL partition a result for two-valued P), limit_offset_fragment. Tie: generated fragment queries `SELECT * FROM t USE INDEX ON (idx) WHERE p "
-       "[ORDER BY idx0 DESC] [LIMIT] [OFFSET]` are answered by the real engine and by the Lean driver on the same rows (lists compared). "
+       "(P / NOT P / (P) IS NULL partition a result for two-valued P), limit_offset_fragment. PLANNER (Sql/SelectPlan.lean mirrors genScanSpecs: flagged ranges + unitary, "
+       "coversOrdCols = same direction and (hasPrefix or sortableUsing), selectSortingIndex, equality-lookup (INLJ) fallback that replaces the primary index, THEN the "
+       "needs-sort decision, sort step, DescOrder): rangesF_erase_fragment (flagged walk = range walk), order_by_sorted_plan_fragment (whatever index is chosen and whether or "
+       "not the sort step is dropped, the output is sorted by the ORDER BY list), plan_rows_perm_fragment (the auto-chosen plan returns a permutation of the rows kept by WHERE), "
+       "plan_hint_independent_fragment, plan_limit_offset_fragment. Tie: generated fragment queries `SELECT * FROM t USE INDEX ON (idx) WHERE p "
+       "[ORDER BY idx0 DESC] [LIMIT] [OFFSET]` are answered by the real engine and by the Lean driver on the same rows (lists compared); for every `SELECT * ... WHERE p [ORDER BY ...]` "
+       "of the fragment, unhinted and under every hint, the plan the engine CHOSE (RowReader.ScanSpecs().Index / DescOrder, presence of a sortRowReader in the reader chain) is compared "
+       "with planOf (`c11 plan`) and, when the output order is determined, the row list with runPlan (`c11 pq`). Queries are also generated RELATIVE TO THE INDEXES (equality on the "
+       "leading columns of an index in several spellings, range on the next column, ORDER BY / GROUP BY over PK prefix / index suffix / index prefix / other index / uncovered columns, "
+       "asc/desc/mixed, LIMIT/OFFSET, bulk rows sharing the leading index values), with counters of the shapes reached. "
        "Model-free METAMORPHIC ORACLE on the engine for everything else: each generated query (comparisons with constants of another numeric type / on the left, "
        "double bounds, OR of ranges, IN, LIKE, IS NULL, NOT/AND/OR, ORDER BY 1..3 cols asc/desc, LIMIT/OFFSET, DISTINCT, GROUP BY + COUNT/SUM/MIN/MAX/AVG, HAVING, "
        "inner/left joins, IN/EXISTS/FROM subqueries, BEFORE TX) is run as is, under every USE INDEX ON hint, on a twin table without secondary indexes kept in the same "
-       "transactions, inside the writing tx / after COMMIT / after reopen, with a 2-row sort buffer; ORDER BY sortedness, partition, COUNT(*), group totals, LIMIT slices.",
+       "transactions, inside the writing tx / after COMMIT / after reopen, with a 2-row sort buffer; ORDER BY sortedness (unhinted plan and every hint), partition, COUNT(*), group totals, no group twice, LIMIT slices and LIMIT order keys.",
   note=TB + " Modelled rather than verified: only the fragment is in Lean (no joins, grouping, DISTINCT, subqueries, LIKE, mixed-type constants, file sort, history, "
-       "index CHOICE — the fragment forces the index); the `inclusive` flags of typedValueSemiRange are not modelled (the scan never reads them); values are the C15 "
+       "GROUP BY planning); the `inclusive` flags of typedValueSemiRange are modelled for the planner only (the scan never reads them); which of several equal rows a sort step "
+       "emits first is not modelled (lists compared for total orders / index order only); the reader chain is observed through reflection on unexported fields (read-only); values are the C15 "
        "representations; NaN and -0.0 are excluded from the theorems (C15 findings). The metamorphic oracle takes the engine's own semantics as given (two-valued "
-       "comparisons, LIMIT 0 = no limit) and checks agreement between plans only. 22 known signatures (root causes R1, R10a/b, R11, R12a/b/c, R13 in known_findings.json).",
+       "comparisons, LIMIT 0 = no limit) and checks agreement between plans only. 26 known signatures (root causes R1, R10a/b, R11, R12a/b/c, R13 in known_findings.json).",
   technique="Lean 4 proof (lexicographic key-window lemmas on top of C15 key_order/composite_lex, list induction) + metamorphic differential testing of the real engine + correspondence on the fragment",
   design="7/C11"),
  "C14": dict(
@@ -357,7 +366,15 @@ CHECKS = {
        "so that a cache filled by a lenient or by another checked path is then consumed by a checked one; lenient answers are not judged, ReadValue of an entry handed out by a lenient read must be self-authentic "
        "(digest and length of that entry). Lean: readValueAt with the value cache as explicit state and the skip flag (Tx/ValueCache.lean): a checked read is authentic for EVERY cache content and in every read sequence "
        "(cached_value_authentic_partial, cached_reads_authentic), the cache is transparent on unchanged logs unless an offset is cached with another length (cached_read_transparent); the repeated reads of the sandwich "
-       "sequences are compared with the model run through the cached bytes (c09 rvc).",
+       "sequences are compared with the model run through the cached bytes (c09 rvc). "
+       "Structure-aware alterations: committed records of BOTH header versions (version 0 = legacy digest TxEntryDigest_v1_1) are re-serialised with one grammar element "
+       "(kv-metadata attribute sets incl. non-canonical encodings, key bytes, whole entries, tx metadata, header version) inserted / removed / replaced, every length and count field consistent, "
+       "no hash recomputed, the record shrinking or growing over what follows; the harness chooses the committed content so that for every other tx the Alh ends with the byte that follows the record, "
+       "so that one-byte insertions stay strictly inside the committed extent. Oracle compares kv metadata attribute by attribute and the ground truth with what was handed to Set/Commit. "
+       "Lean (Tx/EntryDigest.lean): the digest functions with their refusals (v1_1 refuses metadata, v1_2 covers it, TxHeader.TxEntryDigest dispatch); legacy_digest_accepts_iff_no_attribute, "
+       "digest_binds_entry / eh_binds_entries (equal digest / equal Eh => equal kv metadata, key, value hash of every entry, or a collision), parse_eh_checked, "
+       "legacy_metadata_insertion_rejected (a version-0 record re-serialised with any non-empty kv metadata in any entry is answered ErrMetadataUnsupported); the REAL digest function of the altered "
+       "header version is evaluated on the altered entries and compared with the model (c09 dg).",
   note=TB + " Modelled rather than verified: the appendable layer (chunk files, compression, caches) is abstracted to logical byte logs (compressed value logs are exercised by the oracle only, not by the model); "
        "the tx-log cache (filled on commit only, so empty in every probe), the indexer and DualProof are exercised by the oracle only; the value cache is modelled without capacity/eviction (theorems hold for every content); 'partial' = the full property is false for the current code: the known finding signatures of known_findings.json (vLen=0, ExportTx hang / truncated export, compressed-log allocation) incl. the documented limit K2.",
   technique="Lean 4 proof (parser inversion + collision-explicit hash-chain injectivity) + differential correspondence on systematically corrupted real store directories",
